@@ -26,21 +26,8 @@ fn format_value_with_depth(value: &JsValue, depth: usize, seen: &mut Vec<usize>)
                 String::from("false")
             }
         }
-        JsValue::Number(n) => {
-            if n.is_nan() {
-                String::from("NaN")
-            } else if n.is_infinite() {
-                if *n > 0.0 {
-                    String::from("Infinity")
-                } else {
-                    String::from("-Infinity")
-                }
-            } else if crate::prelude::math::fract(*n) == 0.0 && n.abs() < 1e15 {
-                format!("{}", *n as i64)
-            } else {
-                format!("{}", n)
-            }
-        }
+        // The same text as String(n): shortest digits, exponent notation from 1e21 and below 1e-6
+        JsValue::Number(n) => crate::value::number_to_string(*n),
         JsValue::String(s) => s.to_string(), // No quotes for console output
         JsValue::Symbol(sym) => match &sym.description {
             Some(desc) => format!("Symbol({})", desc),
@@ -101,7 +88,7 @@ fn format_object_for_console(
             format!("[Function: {}]", name)
         }
         ExoticObject::Date { timestamp } => {
-            format!("Date({})", timestamp)
+            format!("Date({})", crate::value::number_to_string(*timestamp))
         }
         ExoticObject::RegExp { pattern, flags, .. } => {
             format!("/{}/{}", pattern, flags)
@@ -164,7 +151,7 @@ fn format_object_for_console(
         }
         ExoticObject::Proxy(_) => String::from("Proxy {}"),
         ExoticObject::Boolean(b) => format!("[Boolean: {}]", b),
-        ExoticObject::Number(n) => format!("[Number: {}]", n),
+        ExoticObject::Number(n) => format!("[Number: {}]", crate::value::number_to_string(*n)),
         ExoticObject::StringObj(s) => format!("[String: \"{}\"]", s),
         ExoticObject::Symbol(sym) => match &sym.description {
             Some(desc) => format!("[Symbol: Symbol({})]", desc),
